@@ -832,6 +832,17 @@ def acceptance(case, calls, flat, stats):
 def completion(case, calls, flat, stats):
     """C01: finishes exactly when the last outstanding completion is delivered; running; final state"""
     out = []
+    # from an accepted start() on, every callback of the order (notification, variable query) sees running == True
+    by_start = False
+    for ci, c in enumerate(calls):
+        if c["op"]["op"] == "start":
+            by_start = True
+        if c["op"]["op"] == "junk" and c["op"].get("junk") == "start_event" and not by_start:
+            break  # finding K8: started through the public event path
+        if by_start and c.get("not_running_in"):
+            out.append({"prop": "C01", "rule": "not_running_inside_callback",
+                        "msg": "call %d %r: the scheduler does not report itself running inside the %s" % (ci, c["op"], c["not_running_in"][0])})
+            break
     pending = set()
     started = False
     finished_at = None
